@@ -395,12 +395,14 @@ def main(mod, argv=None):
             soft = 2
             messages.append("INCONCLUSIVE %s: %s" % (r["job"], r["inconclusive"]))
             continue
-        if not r["reach"].get("end"):
+        base = r["job"].split(" shard ")[0]
+        group = [x for x in results if x["job"].split(" shard ")[0] == base]
+        if not any(x["reach"].get("end") for x in group):
             soft = 2
-            messages.append("VACUOUS %s: no path reached the end of the harness" % r["job"])
-        if not r["labels"]:
+            messages.append("VACUOUS %s: no path reached the end of the harness" % base)
+        if not any(x["labels"] for x in group):
             soft = 2
-            messages.append("VACUOUS %s: no check was evaluated" % r["job"])
+            messages.append("VACUOUS %s: no check was evaluated" % base)
     if stopped_early:
         messages.append("note: stopped at the first replayed violation (%d of %d obligations finished); --all explores everything"
                         % (len(results), len(args)))
